@@ -15,6 +15,7 @@ LEVEL = "fault_enumeration"
 TECHNIQUE = ('deterministic simulation with crash-point enumeration: every byte offset of each seeded stream as cut (EOF) or connection reset, five source front ends, flat and grouped parsers; oracle = correct prefix, no delivered frame lost')
 LEVEL_NOTE = ('streams sampled by seed, crash points enumerated per stream (all offsets up to 800 / 3000 bytes)')
 OPTIMIZED_EVERY = 25      # every 25th run is executed in a child interpreter started with python -O
+PBPY_EVERY = 50           # every 50th run (offset 6) is executed with protobuf's pure-Python backend
 COMPILED_EVERY = 25       # every 25th run (offset 12) is executed in a child that imports a mypyc build of the tree
 RUNS = {"quick": 1600, "thorough": 20000}
 CHUNK = 5
